@@ -235,6 +235,14 @@ func verifyAll(r *mon.Run, sc *scenario, b *bundle.Bundle, t time.Time, class, m
 		var verr error
 		p, pv := r.Call(id+"/VerifyExchange", nil, func() { res, verr = v.VerifyExchange(e) })
 		o := sc.orig[e.Request.URL.String()]
+		if !p && nCase%3 == 0 {
+			// asking the same Verifier again about the same exchange gives the same answer
+			res2, verr2 := v.VerifyExchange(e)
+			if (verr2 == nil) != (verr == nil) || (res2 == nil) != (res == nil) || (res != nil && res2 != nil && !bytes.Equal(res.VerifiedPayload, res2.VerifiedPayload)) {
+				outcome = "VERIFY-NOT-REPEATABLE"
+				r.Violation(key+":repeat:"+e.Request.URL.String(), fmt.Sprintf("two consecutive VerifyExchange calls disagree for %s (%s)", e.Request.URL, id), det)
+			}
+		}
 		switch {
 		case p:
 			outcome = "PANIC"
